@@ -169,3 +169,12 @@ LEMMAS['C05/prefix-filter'] = dict(
           'forall(a, 0, n, forall(b, a, n, r[a] <= r[b]))',
           'forall(q, 0, idx, r[q] <= aim)', 'idx == n or r[idx] > aim'],
     induct=('m', '0', 'n', 'Sum(q, m, ite(r[q] <= aim, x[q], 0)) == Sum(q, min(m, idx), x[q])'))
+
+# ---- FLAT (ASSUMED, T11): chain.from_iterable concatenates, so a sum over the concatenation is the sum of the row sums.
+#      g is an arbitrary summand indexed by object reference.  (Provable by induction over the rows from a defining
+#      axiom of concatenation; not done here, therefore listed as an assumption in every evidence file that uses it.)
+LEMMAS['FLAT/sum'] = dict(
+    assumed=True,
+    vars={'rows': ('list', ('list', 'ref')), 'g': ('list', 'int')},
+    hyps=[],
+    goals=[('sum-over-concatenation', 'Sum(q, len(flat(rows)), g[flat(rows)[q]]) == Sum(i, len(rows), Sum(c, len(rows[i]), g[rows[i][c]]))')])
